@@ -254,7 +254,7 @@ func runSeq(run *ev.Run, caseID string, r *rand.Rand, cfg string, start string, 
 		}
 	}
 	var real []string
-	for _, p := range probs {
+	for _, p := range mon.Quarantine(probs) {
 		switch {
 		case strings.HasPrefix(p, "INCONCLUSIVE|"):
 			run.Inconclusive(caseID + ": " + p[13:])
